@@ -35,6 +35,14 @@ INSTR_SAMPLE = 70
 
 
 def gen_base(rng, tier, index):
+    if index == 11 or (tier == "thorough" and index % 40 == 11):
+        # several seconds of idleness between calls (the caller does something else): the pool must still serve the next call
+        pause = 6.5 if tier == "quick" else rng.choice([6.5, 12.0, 31.0])
+        return {"pool": "factory" if index % 2 else "functor", "workers": 2, "quota": 2 if index % 2 else None, "wq": 1.0, "rq": None,
+                "no_sweep": True, "limit_factor": 3,
+                "calls": [{"ordered": True, "n": 6, "chunk": 1, "form": "list", "pause_after": pause},
+                          {"ordered": False, "n": 7, "chunk": 2, "form": "gen", "pause_after": 0.5},
+                          {"ordered": True, "n": 3, "chunk": 1, "form": "list"}]}
     factory = index % 4 != 3
     workers = rng.choice([1, 2, 2, 3])
     quota = rng.choice([1, 1, 2, 3, 5]) if factory and index % 8 != 6 else None
@@ -51,7 +59,7 @@ def gen_base(rng, tier, index):
             n = max(0, n)
         else:
             n = rng.randint(0, 14)
-        call = {"ordered": rng.random() < 0.7, "n": n, "chunk": chunk, "form": rng.choice(["list", "list", "gen", "slow"]),
+        call = {"ordered": rng.random() < 0.7, "n": n, "chunk": chunk, "form": rng.choice(["list", "list", "gen", "slow", "deque", "intseq"]),
                 "salt": rng.randrange(1000)}
         if call["form"] == "slow":
             call["slow"] = {"before": {}, "stop": rng.choice([0, 0.03, 0.1])}
